@@ -229,6 +229,7 @@ func c07Oracle(c *Ctx, in sx.V, out sx.V) {
 	c07AllocOracle(c, in)
 	if !isAtom(out, "err") {
 		c07PrintOracle(c, in, &c07st.printHangs)
+		c07HashOracleH(c, in, 0, &c07hs.genericHangs)
 	}
 }
 
